@@ -387,7 +387,11 @@ step_harness!(fdl_step_claim_token, 2, |f0, f, phy, _now, apps, _n| {
     if let Some((da, sa)) = sent_token(phy) {
         assert!(da == ts && sa == ts && matches!(step0, ClaimTokenStep::FirstToken | ClaimTokenStep::SecondToken));
         assert!(f.token_ring.ready_for_ring());
+        // C12.visit: the token is claimed with two tokens, and the GAP scan that follows starts right behind TS (whole GAP)
+        assert!(f.state == (State::ClaimToken { step: if step0 == ClaimTokenStep::FirstToken { ClaimTokenStep::SecondToken } else { ClaimTokenStep::Scan } }));
+        assert!(f.gap_state == (GapState::DoPoll { current_address: ts }));
     }
+    if phy.tx_count == 0 && matches!(step0, ClaimTokenStep::FirstToken | ClaimTokenStep::SecondToken) { assert!(f.state == f0.state && f.gap_state == f0.gap_state); }
     if let Some(h) = sent_data(phy) {
         // GAP poll of the post-claim scan: FDL status request to an address of the own GAP, never to ourselves
         assert!(matches!(step0, ClaimTokenStep::Scan | ClaimTokenStep::ScanAwaitResponse { .. }));
